@@ -17,6 +17,63 @@ set_option linter.unnecessarySeqFocus false
 namespace TFVerif.Stats
 open List
 
+section Sorting
+variable {γ : Type}
+
+theorem insertBy_perm (le : γ → γ → Bool) (x : γ) (l : List γ) : (insertBy le x l).Perm (x :: l) := by
+  induction l with
+  | nil => exact List.Perm.refl _
+  | cons y ys ih =>
+    unfold insertBy
+    by_cases h : le x y = true
+    · simp only [h, if_true]; exact List.Perm.refl _
+    · simp only [h]
+      exact ((List.Perm.cons y ih).trans (List.Perm.swap x y ys))
+
+theorem isort_perm (le : γ → γ → Bool) (l : List γ) : (isort le l).Perm l := by
+  induction l with
+  | nil => exact List.Perm.refl _
+  | cons x xs ih => exact (insertBy_perm le x _).trans (List.Perm.cons x ih)
+
+theorem insertBy_pairwise (le : γ → γ → Bool)
+    (htrans : ∀ a b c, le a b = true → le b c = true → le a c = true)
+    (htotal : ∀ a b, (le a b || le b a) = true) (x : γ) (l : List γ)
+    (hl : l.Pairwise (fun a b => le a b = true)) : (insertBy le x l).Pairwise (fun a b => le a b = true) := by
+  induction l with
+  | nil => simp [insertBy]
+  | cons y ys ih =>
+    unfold insertBy
+    obtain ⟨hy, hys⟩ := List.pairwise_cons.mp hl
+    by_cases h : le x y = true
+    · simp only [h, if_true]
+      refine List.pairwise_cons.mpr ⟨?_, hl⟩
+      intro z hz
+      rcases List.mem_cons.mp hz with rfl | hz
+      · exact h
+      · exact htrans _ _ _ h (hy z hz)
+    · simp only [h]
+      have hyx : le y x = true := by
+        have := htotal x y
+        simp only [Bool.or_eq_true] at this
+        rcases this with h' | h'
+        · exact absurd h' h
+        · exact h'
+      refine List.pairwise_cons.mpr ⟨?_, ih hys⟩
+      intro z hz
+      rcases List.mem_cons.mp ((insertBy_perm le x ys).mem_iff.mp hz) with rfl | hz
+      · exact hyx
+      · exact hy z hz
+
+theorem isort_pairwise (le : γ → γ → Bool)
+    (htrans : ∀ a b c, le a b = true → le b c = true → le a c = true)
+    (htotal : ∀ a b, (le a b || le b a) = true) (l : List γ) :
+    (isort le l).Pairwise (fun a b => le a b = true) := by
+  induction l with
+  | nil => simp [isort]
+  | cons x xs ih => exact insertBy_pairwise le htrans htotal x _ ih
+
+end Sorting
+
 
 section Refine
 variable {α : Type}
@@ -234,13 +291,13 @@ theorem sorted_getD_mono {s : List α} (hs : s.Pairwise (· ≤ ·)) (i j : Nat)
   · exact (List.pairwise_iff_getElem.mp hs) i j hi hj h
 
 theorem sortAsc_pairwise (xs : List α) : (sortAsc xs).Pairwise (· ≤ ·) := by
-  have := List.pairwise_mergeSort (le := leB (α := α))
+  have := isort_pairwise (le := leB (α := α))
     (fun a b c h1 h2 => by simp only [leB, decide_eq_true_eq] at *; exact le_trans h1 h2)
     (fun a b => by simp only [leB, Bool.or_eq_true, decide_eq_true_eq]; exact le_total a b) xs
   unfold sortAsc
   exact this.imp (fun h => by simpa [leB] using h)
 
-theorem sortAsc_perm (xs : List α) : (sortAsc xs).Perm xs := List.mergeSort_perm _ _
+theorem sortAsc_perm (xs : List α) : (sortAsc xs).Perm xs := isort_perm _ _
 
 theorem sortAsc_eq_of_perm {xs ys : List α} (h : xs.Perm ys) : sortAsc xs = sortAsc ys := by
   apply List.Perm.eq_of_pairwise (le := (· ≤ ·)) (fun a b _ _ h1 h2 => le_antisymm h1 h2) (sortAsc_pairwise xs) (sortAsc_pairwise ys)
@@ -372,7 +429,7 @@ theorem mem_valueCounts (cells : List (Option β)) (p : β × Nat) :
     p ∈ valueCounts cells ↔ some p.1 ∈ cells ∧ p.2 = occurrences cells p.1 := by
   unfold valueCounts
   simp only []
-  rw [(List.mergeSort_perm _ _).mem_iff, List.mem_map]
+  rw [(isort_perm _ _).mem_iff, List.mem_map]
   constructor
   · rintro ⟨v, hv, rfl⟩
     exact ⟨(mem_filterMap_id _ _).mp ((mem_distinct _ _).mp hv), (occurrences_eq_count _ _).symm⟩
@@ -382,8 +439,8 @@ theorem mem_valueCounts (cells : List (Option β)) (p : β × Nat) :
 theorem valueCounts_cats_nodup (cells : List (Option β)) : ((valueCounts cells).map Prod.fst).Nodup := by
   unfold valueCounts
   simp only []
-  have hp := (List.mergeSort_perm ((distinct (cells.filterMap id)).map fun v => (v, (cells.filterMap id).count v))
-    (fun a b => decide (b.2 ≤ a.2))).map Prod.fst
+  have hp := (isort_perm (fun a b => decide (b.2 ≤ a.2))
+    ((distinct (cells.filterMap id)).map fun v => (v, (cells.filterMap id).count v))).map Prod.fst
   rw [hp.nodup_iff, List.map_map]
   have : (Prod.fst ∘ fun v => (v, (cells.filterMap id).count v)) = id := by funext v; rfl
   rw [this, List.map_id]
@@ -410,7 +467,7 @@ theorem valueCounts_sorted (cells : List (Option β)) :
   rw [nonIncreasing_iff_pairwise, List.pairwise_map]
   unfold valueCounts
   simp only []
-  have := List.pairwise_mergeSort (le := fun (a b : β × Nat) => decide (b.2 ≤ a.2))
+  have := isort_pairwise (le := fun (a b : β × Nat) => decide (b.2 ≤ a.2))
     (fun a b c h1 h2 => by simp only [decide_eq_true_eq] at *; omega)
     (fun a b => by simp only [Bool.or_eq_true, decide_eq_true_eq]; omega)
     ((distinct (cells.filterMap id)).map fun v => (v, (cells.filterMap id).count v))
@@ -652,8 +709,12 @@ theorem multi_count_exact (cells : List (Option (List β))) (t : β) :
     cases c with
     | none => simpa using ih
     | some l =>
-      simp only [filterMap_cons, id, flatMap_cons, count_append, ih, count_distinct, filter_cons]
-      by_cases h : t ∈ l <;> simp [h] <;> omega
+      have e1 : ((some l :: cs).filterMap id).flatMap distinct
+          = distinct l ++ (cs.filterMap id).flatMap distinct := by simp
+      rw [e1, count_append, ih, count_distinct, filter_cons]
+      by_cases h : t ∈ l
+      · simp only [h, if_true, decide_true, length_cons]; omega
+      · simp only [h, if_false, decide_false]; simp
 
 end Multi
 
@@ -718,10 +779,10 @@ theorem maxInt_spec {l : List Int} (h : l ≠ []) : maxInt l ∈ l ∧ ∀ x ∈
     exact ⟨h3, h1, h2⟩
 
 theorem sortedTimes_perm (cells : List (Option Int)) : (sortedTimes cells).Perm (cells.filterMap id) :=
-  List.mergeSort_perm _ _
+  isort_perm _ _
 
 theorem sortedTimes_pairwise (cells : List (Option Int)) : (sortedTimes cells).Pairwise (· ≤ ·) := by
-  have := List.pairwise_mergeSort (le := fun (a b : Int) => decide (a ≤ b))
+  have := isort_pairwise (le := fun (a b : Int) => decide (a ≤ b))
     (fun a b c h1 h2 => by simp only [decide_eq_true_eq] at *; omega)
     (fun a b => by simp only [Bool.or_eq_true, decide_eq_true_eq]; omega) (cells.filterMap id)
   exact this.imp (fun h => by simpa using h)
